@@ -70,7 +70,7 @@ def pop_program_rows(F):
            or re.match(r"^Result::Err\(%s\.Err\.0\)$" % RUNP, r_) or re.match(r"^%s$" % RUNP, r_) or re.match(r"^Result::Err\{\?%s\}$" % RUNP, r_)
            # a guard of the interpreter that refuses to evaluate the program at all (cycle detection): it is asked with the NAME, before run_raw,
            # and its failure is returned as it is (it cannot be of the absent class: C08 R08.2 freezes who may construct that)
-           or (re.match(r"^Result::Err\(Interpreter::\w+\(self\.1, .*\)\.Err\.0\)$", r_) and "run_raw(" not in r_)]
+           or (re.match(r"^Result::Err\(Interpreter::\w+\(self\.\d+, .*\)\.Err\.0\)$", r_) and "run_raw(" not in r_)]
     return hit_rows, okp
 
 
@@ -107,7 +107,7 @@ def run(chk, tier):
                 chk.bad("R12.1", "pop|program hit", "a found program is not evaluated by run_raw", b.file)
             else:
                 hr_, _ok = pop_program_rows(F)
-                lazy = [r_ for r_ in hr_ if "run_raw(" not in r_ and not re.match(r"^Result::Err\(Interpreter::\w+\(self\.1, .*\)\.Err\.0\)$", r_)]
+                lazy = [r_ for r_ in hr_ if "run_raw(" not in r_ and not re.match(r"^Result::Err\(Interpreter::\w+\(self\.\d+, .*\)\.Err\.0\)$", r_)]
                 if lazy or not hr_:
                     chk.bad("R12.1", "pop|program hit always runs", "a found program can be answered without evaluating it (%s): "
                                                                      "its value then is not what the program computes under the current bindings" % [r_[:100] for r_ in lazy][:2], b.file)
@@ -128,7 +128,10 @@ def run(chk, tier):
                 % [r_[:140] for r_ in hit_rows if r_ not in okp][:2], b.file)
     for (i, t, p) in rr:
         o = q.origin(t["args"][0])
-        same = o[0] == "param" and o[1] == 1 and {"f": 1} in o[2]
+        # the receiver is the interpreter this stack belongs to: the field of InterpStack that refers to an Interpreter (by type, not by position or name)
+        isa = [a_ for a_ in F.adts.values() if a_["path"] == "rscel::interp::interp::InterpStack"]
+        ctx_idx = [k_ for k_, f_ in enumerate(isa[0]["variants"][0]["fields"]) if "Interpreter<" in f_["ty"]] if isa else []
+        same = o[0] == "param" and o[1] == 1 and len(ctx_idx) == 1 and {"f": ctx_idx[0]} in o[2]
         flag = lib.op_const_int(t["args"][2]) if len(t["args"]) > 2 else None
         if same and flag == 1:
             chk.ok("R12.1", "pop|program runs on self.ctx, resolve=true", {"receiver": str(o)})
@@ -143,7 +146,7 @@ def run(chk, tier):
     hr6, _ok6 = pop_program_rows(F)
     guards6 = set()
     for r_ in hr6:
-        m6 = re.match(r"^Result::Err\(Interpreter::(\w+)\(self\.1, .*\)\.Err\.0\)$", r_)
+        m6 = re.match(r"^Result::Err\(Interpreter::(\w+)\(self\.\d+, .*\)\.Err\.0\)$", r_)
         if m6 and "run_raw(" not in r_:
             guards6.add(m6.group(1))
     if len(guards6) != 1:
